@@ -144,7 +144,7 @@ func c05Check(c hostileCase) error {
 				g.free()
 				return fmt.Errorf("[%s nd=%v] accepted input produced a malformed tape: %v\ninput: %q", cfg, c.ND, terr, clip(c.In))
 			}
-			opts := exerciseOpts{allowInterface: depth <= deepInterfaceLimit}
+			opts := exerciseOpts{allowInterface: depth <= deepInterfaceLimit, linearOnly: depth > deepInterfaceLimit}
 			if len(pj.Tape) > 5000 {
 				opts.maxNodes = 60
 			}
